@@ -67,7 +67,7 @@ func runRegKey(c *core.Ctx) {
 	P := c.P
 	n := 0
 	for _, fn := range P.ModFuncs {
-		if fileOf(c, fn) != "event_cache.go" {
+		if c.P.PkgOf(fn) != core.ModulePath {
 			continue
 		}
 		c.CountFuncs(1)
